@@ -671,9 +671,32 @@ def run(tier, seed):
     rep.obligation("K-C20c: order of included text and failure kind vs the reader model", "K", not kgraph, json.dumps(kgraph[:2], default=str)[:1900])
     rep.obligation("O-C20c: included text stands where the documented lookup rule puts it (evaluated on the scratch tree)", "O", not ograph,
                    json.dumps([f["what"] for f in ograph[:3]])[:1900])
+    # E-C20: the -D flag of the real binary (the in-process load takes the definitions as a list, not from the command line)
+    ecli = []
+    import subprocess
+    import tempfile
+    from . import e2e
+    dcli = tempfile.mkdtemp(prefix="verif-c20-cli-")
+    try:
+        with open(os.path.join(dcli, "play.cfg"), "w") as fcli:
+            fcli.write("title ~p~\n")
+        for val in ["plain", "one,two", "a=b", "x y", "host1:26257,host2:26257"]:
+            prc = subprocess.run([e2e.BIN, "-n", "-p", "-q", "-D", "p=" + val, "play.cfg"], cwd=dcli, capture_output=True, text=True, timeout=30)
+            titles = [l[6:] for l in prc.stdout.splitlines() if l.startswith("title ")]
+            rep.count("cli-define:" + ("with comma" if "," in val else "plain"))
+            if titles != [val]:
+                ecli.append({"what": "-D 'p=%s' with `title ~p~` prints %s (the value given with -D must be substituted as it is)" % (val, titles or prc.stderr[-200:]),
+                             "case": {"files": {"play.cfg": "title ~p~\n"}, "args": ["-n", "-p", "-q", "-D", "p=" + val, "play.cfg"]},
+                             "tags": {"kind": "define-with-comma" if "," in val else "cli-define"}})
+    finally:
+        shutil.rmtree(dcli, ignore_errors=True)
+    known_cli = [f for f in ecli if rep.match_known(f["tags"]) is not None]
+    rep.obligation("E-C20: a value given with -D on the command line of the real binary is substituted as it is%s"
+                   % ("; values of the known finding excepted (they fail as recorded)" if known_cli else ""), "O",
+                   not [f for f in ecli if rep.match_known(f["tags"]) is None], json.dumps([f["what"] for f in ecli][:3])[:900])
     # a field that is substituted where it must not be (or the reverse) is a violation with the configuration as its input
     groups = {}
-    for f in opre + ograph + kfields:
+    for f in opre + ograph + kfields + ecli:
         groups.setdefault(json.dumps(f["tags"], sort_keys=True), []).append(f)
     unknown = 0
     for key, fs in sorted(groups.items()):
